@@ -24,10 +24,10 @@ SCOPE = {
     'request.go': 'request.go,context.go',
     'return_handler.go': 'return_handler.go,context.go',
     'inject/inject.go': 'inject/',
-    'internal/route/definition.go': 'route/',
-    'internal/route/header_matcher.go': 'route/',
-    'internal/route/leaf.go': 'route/',
-    'internal/route/tree.go': 'route/',
+    'internal/route/definition.go': 'route/,router.go',
+    'internal/route/header_matcher.go': 'route/,router.go',
+    'internal/route/leaf.go': 'route/,router.go',
+    'internal/route/tree.go': 'route/,router.go',
     'router.go': 'router.go',
     'flame.go': 'flame.go,router.go',
 }
